@@ -1195,6 +1195,27 @@ class GroupCoordinator(BaseCoordinator):
 
         request = OffsetFetchRequest(self.group_id, list(partitions_by_topic.items()))
         response = await self._send_req(request)
+        if response.API_VERSION >= 2:
+            # Since v2 group level errors are reported in a top level error
+            # code (the list of topics is empty then). It must not be taken
+            # for "nothing is committed".
+            error_type = Errors.for_code(response.error_code)
+            if error_type is not Errors.NoError:
+                log.debug("Error fetching offsets for group: %s", error_type)
+                if error_type is Errors.GroupLoadInProgressError:
+                    # just retry
+                    raise error_type()
+                elif error_type in (
+                    Errors.NotCoordinatorForGroupError,
+                    Errors.GroupCoordinatorNotAvailableError,
+                ):
+                    # re-discover the coordinator and retry
+                    self.coordinator_dead()
+                    raise error_type()
+                elif error_type is Errors.GroupAuthorizationFailedError:
+                    raise error_type(self.group_id)
+                else:
+                    raise Errors.KafkaError(repr(error_type()))
         offsets = {}
         for topic, topic_partitions in response.topics:
             for partition, offset, metadata, error_code in topic_partitions:
